@@ -14,7 +14,7 @@ from ..common import MachineryError, NCPU
 from .. import build, tlc, run, idb, cpplib
 
 BATCH = 150
-QUICK = ["ExportDesc_sig", "ExportDesc_roles", "ExportDesc_bases", "ExportDesc_tops"]
+QUICK = ["ExportDesc_sig", "ExportDesc_roles", "ExportDesc_bases", "ExportDesc_nest", "ExportDesc_tops"]
 THOROUGH = [c + "_t" for c in QUICK]
 GXX = ["g++", "-std=c++17", "-fsyntax-only", "-w", "-D__published=public", "-D__begin_publish=", "-D__end_publish=",
        "-I.", "-Isub", "-Iinc", "-Isys"]
@@ -149,6 +149,13 @@ def compare_case(cs, db):
             (bool(t["is_enum"]), bool(t["is_nested"]), db.tyname(t["outer_class"]),
              [(v["name"], v["scoped_name"], v["value"]) for v in t["enum_values"]]))
         chk("comment of enum " + sc, cs.doc(e["cm"], cs.mname(c, i)), t["comment"] if t["has_comment"] else "")
+    for e in d.get("typedefs", []):
+        n = cs.tname(e["t"])
+        t = db.types.get(n)
+        if not t:
+            bad.append(("typedef record of " + n, 1, 0))
+            continue
+        chk("typedef " + n, (True, n, cs.cscoped(e["target"])), (bool(t["is_typedef"]), t["name"], db.tyname(t["wrapped_type"])))
     for e in d["tops"]:
         t = e["t"]
         n, k = cs.tname(t), cs.tops[t - 1]["k"]
@@ -320,7 +327,7 @@ def run_check(ctx):
         for i, rec in ba[2]:
             cs = cpplib.Case(i, rec)
             d = rec["desc"]
-            n_facts += sum(len(d[k]) for k in ("fns", "data", "dtors", "classes", "enums", "tops"))
+            n_facts += sum(len(d[k]) for k in ("fns", "data", "dtors", "classes", "enums", "tops", "typedefs"))
             for what, e, o in res["bad"][i][:3]:
                 ctx.violation("%s: model says %s, database says %s" % (what, e, o),
                               dict(program=cs.text(), what=what, expected=e, observed=o, cmd=res["cmd"],
@@ -358,7 +365,7 @@ def run_check(ctx):
     ctx.cov["distinct_nontrivial"] = len(cases) + len(sq) + len(esq)
     ctx.cov["exhaustive"] = True
     ctx.cov["rule"] = ("every library of the ExportDesc cfgs (all signatures over the parameter / return / role alphabets, "
-                       "all pairs of fixed-shape members with comment styles, all hierarchies of <= 3 classes with base "
+                       "all pairs of fixed-shape members with comment styles, nested classes / enums / typedefs, all hierarchies of <= 3 classes with base "
                        "lists of length <= 2) and every line sequence of length <= 5 with at least one declaration; each "
                        "is replayed and compared entity by entity; all are distinct records and each contains at least "
                        "one exported entity whose description is compared")
@@ -372,7 +379,7 @@ def run_check(ctx):
         "ends a block, a block attaches to the declaration that starts on its last line or on the next line and to no other; "
         "trailing comments after a declaration on the same line are outside the claimed domain, except in enumerator lists "
         "where the parser documents that a same-line comment belongs to the enumerator (sequences of length <= 4)",
-        "properties / sequences (MAKE_PROPERTY, MAKE_SEQ) and typedefs are not in the enumerated alphabet",
+        "properties / sequences (MAKE_PROPERTY, MAKE_SEQ) are not in the enumerated alphabet",
     ]
     for i, rec in cases[:: max(1, len(cases) // 4)][:4]:
         ctx.sample(dict(library=cpplib.Case(i, rec).text(), description=rec["desc"]))
